@@ -146,9 +146,10 @@ theorem inv_deq {n s s' σ} (hi : C12Inv n s σ) (e : Entry) (rest : List Entry)
       · exact .inl (hhead m h2)
       · exact .inr ⟨x, by rw [hq']; exact hx, by simpa [pf.o] using h1, h2⟩
 
-/-- A tick at the head of the queue gets its message id: nothing else moves. -/
-theorem inv_rename {n s s' σ} (hi : C12Inv n s σ) (t m : Nat) (tok : Tok) (rest : List Entry)
-    (hq : s.chan.queue = { pl := .tick t, tok } :: rest)
+/-- A head entry that is not a user message (a tick, a broadcast) gets its message id: nothing else moves. -/
+theorem inv_rename_pl {n s s' σ} (hi : C12Inv n s σ) (pl : Payload) (hnm : ∀ m', pl ≠ .msg m' none)
+    (m : Nat) (tok : Tok) (rest : List Entry)
+    (hq : s.chan.queue = { pl := pl, tok } :: rest)
     (hc : s'.chan = { s.chan with queue := { pl := .msg m none, tok } :: rest }) (ho : OpsMap s s') :
     C12Inv n s' σ := by
   obtain ⟨f, hf, pf⟩ := ho
@@ -170,7 +171,7 @@ theorem inv_rename {n s s' σ} (hi : C12Inv n s σ) (t m : Nat) (tok : Tok) (res
     | succ k =>
       simp at hx ⊢
       rcases hx with rfl | hx
-      · simp at hpl
+      · exact absurd hpl (hnm _)
       · exact .inr hx
   · intro hd r' hr' hst m' hk
     obtain ⟨r, hr, rfl⟩ := hmem r' hr'
@@ -179,7 +180,14 @@ theorem inv_rename {n s s' σ} (hi : C12Inv n s σ) (t m : Nat) (tok : Tok) (res
     · rw [hq] at hx
       simp at hx
       rcases hx with rfl | hx
-      · simp at h2
+      · exact absurd h2 (hnm _)
       · exact .inr ⟨x, by rw [hc]; simp [hx], by simpa [pf.o] using h1, h2⟩
+
+/-- A tick at the head of the queue gets its message id: nothing else moves. -/
+theorem inv_rename {n s s' σ} (hi : C12Inv n s σ) (t m : Nat) (tok : Tok) (rest : List Entry)
+    (hq : s.chan.queue = { pl := .tick t, tok } :: rest)
+    (hc : s'.chan = { s.chan with queue := { pl := .msg m none, tok } :: rest }) (ho : OpsMap s s') :
+    C12Inv n s' σ :=
+  inv_rename_pl hi (.tick t) (by simp) m tok rest hq hc ho
 
 end Hannibal
